@@ -20,7 +20,7 @@ import lib
 import universe as U
 from lib import gz, gtext, glist, gbool, gopt, gpair
 
-THEOREMS = ['C16_shape_src', 'C16_flat_fields', 'C16_flat_override', 'C16_registry_subclasses',
+THEOREMS = ['C16_shape_src', 'C16_extends_partial', 'C16_extends_refuted', 'C16_flat_fields', 'C16_flat_override', 'C16_registry_subclasses',
             'C16_xml_poly_rt', 'C16_xml_marker_resolves', 'C16_xml_mono', 'C16_xml_marker_sound',
             'C16_hier_poly_rt', 'C16_hier_mono', 'C16_hier_marker_sound',
             'C16_xml_poly_rt_spyne', 'C16_hier_poly_rt_spyne']
@@ -119,7 +119,7 @@ def gen_tree(rng, override=False):
     hier_roots, all_h = [], []
     for h in range(rng.randint(1, 2)):
         ns = rng.choice(nss)
-        root = add('B%d' % h, ns, None, [prim_f() for _ in range(rng.randint(1, 3))])
+        root = add('B%d' % h, ns, None, [prim_f() for _ in range(0 if (override and rng.random() < 0.3) else rng.randint(1, 3))])
         hier_roots.append(root)
         members, depth = [root], {root: 1}
         for s in range(rng.randint(1, 4)):
@@ -132,9 +132,9 @@ def gen_tree(rng, override=False):
                 own.append(ref_f(('ref', rng.choice(hier_roots))))               # recursive / cross-hierarchy member
             elif r < 0.3:
                 own.append(ref_f(('arr', ('ref', rng.choice(hier_roots)))))
-            if override and own and rng.random() < 0.6:
+            anc = U.flat_fields({'classes': classes}, p)
+            if override and own and anc and rng.random() < 0.6:
                 # redeclare a member of an ancestor (the odict override rule)
-                anc = U.flat_fields({'classes': classes}, p)
                 g = rng.choice(anc)
                 own[rng.randrange(len(own))] = dict(prim_f(g['name']))
             far = len(nss) > 1 and rng.random() < 0.15
@@ -368,6 +368,15 @@ def g_registry(entries):
     return glist(['((%s, %s), %s)' % (gtext(ns), gtext(n), U.g_ty(t)) for (ns, n, t) in entries])
 
 
+def g_py(desc):
+    """the class statements: Python base, namespace, name, own members"""
+    rows = []
+    for c in desc['classes']:
+        rows.append('(mkpy %s %s %s %s)' % (gopt(c['parent'], lambda p: '%d%%nat' % p), gtext(c['ns']), gtext(c['name']),
+                                            glist([U.g_field(f) for f in c['fields']])))
+    return glist(rows)
+
+
 def g_prelude(desc, prefmap, extra=''):
     """definitions shared by the case files of one program: the universe, the roots of
     populate_interface, the prefix table the interface ended up with, the model's registry"""
@@ -376,7 +385,8 @@ def g_prelude(desc, prefmap, extra=''):
         roots += [m['in'], m['out']]
     pm = sorted(prefmap.items())
     s = IMPORTS
-    s += 'Definition UU : universe := %s.\n' % U.g_universe(desc)
+    s += 'Definition PY : list pycls := %s.\n' % g_py(desc)
+    s += 'Definition UU : universe := Eval vm_compute in (derive shape_src PY).\n'
     s += 'Definition TNS : text := %s.\n' % gtext(desc['tns'])
     s += 'Definition ROOTS : list cid := %s.\n' % glist(['%d%%nat' % r for r in roots])
     s += 'Definition PMAP : list (text * text) := %s.\n' % glist(['(%s, %s)' % (gtext(k), gtext(v)) for k, v in pm])
@@ -1347,6 +1357,27 @@ def corpus():
     return out
 
 
+# ------------------------------------------------------------------ known finding: member-less root base
+def probe_empty_root(check):
+    """class E(ComplexModel): pass; class F(E): f = Integer; echo(E) with an F instance.  The metaclass
+    does not make F extend E (C16_extends_refuted), so F is not substitutable for E anywhere."""
+    desc = _prog('urn:a', [{'ns': 'urn:a', 'name': 'E', 'parent': None, 'fields': []},
+                           {'ns': 'urn:a', 'name': 'F', 'parent': 0, 'fields': [_f('f', ('prim', 'int'))]}],
+                 [(('ref', 0), 0, True, True)])
+    b = build(desc)
+    v = ('obj', 1, [('int', 1)])
+    for proto in XML_PROTOS + DICT_PROTOS:
+        fails = oracle_case(check, desc, b, 0, v, proto, True, report=False)
+        kinds = sorted(set('|'.join(k.split('|')[3:5]) if k.split('|')[3] in ('request', 'response') else k.split('|')[3]
+                           for k, _ in fails))
+        check.count(('emptyroot', proto))
+        if fails:
+            check.fail('C16|emptyroot|%s' % proto,
+                       'an instance of F (class F(E): f = Integer) sent where the member-less root class E is declared, '
+                       '%s polymorphic=True, does not arrive as an F [%s]: %s' % (proto, ', '.join(kinds), fails[0][1][:300]),
+                       {'kind': 'roundtrip', 'program': desc, 'method': 0, 'value': v, 'protocol': proto, 'polymorphic': True})
+
+
 # ------------------------------------------------------------------ run
 def prelude_factory(desc):
     def f(*apps):
@@ -1424,6 +1455,7 @@ def run(check):
     for pi in range(3 if tier == 'quick' else 15):
         desc = gen_tree(rng, override=True)
         run_program(check, desc, 'override program %d' % pi, tier, with_codecs=False)
+    probe_empty_root(check)
     lib.flush_correspondences(check)
     check.extra['outcomes_by_mutation'] = dict(sorted(STATS.items()))
     return check.finish()
